@@ -3,6 +3,7 @@
 From SV Require Import Lib.Base Gen.Consts Gen.WireFields Model.WireBase Proofs.WireBaseProofs.
 From SV Require Import Model.WireIpv6Opt Proofs.WireIpv6OptProofs.
 From SV Require Import Model.WireIpv6Hbh Proofs.WireIpv6HbhProofs.
+From SV Require Import Model.WireIpv6Routing Proofs.WireIpv6RoutingProofs.
 From SV Require Import Props.C07b_v6opts.
 
 Check (C07_v6opt_accessors_safe : forall bs,
@@ -29,3 +30,12 @@ Check (C07_v6opt_iter_err_last : forall fuel data pos pre x post,
 Check (C07_v6hbh_accessors_safe : forall bs, v6hbh_check_len bs = Ok tt -> v6hbh_options bs <> Panic).
 
 Check (C07_v6hbh_parse_total : forall bs, bytes_ok bs = true -> v6hbh_parse bs <> Panic).
+
+Check (C07_v6rt_accessors_safe : forall bs,
+  v6rt_check_len bs = Ok tt ->
+  v6rt_routing_type bs <> Panic /\ v6rt_segments_left bs <> Panic /\
+  (v6rt_routing_type bs = Ok v6rt_T_TYPE2 -> v6rt_home_address bs <> Panic) /\
+  (v6rt_routing_type bs = Ok v6rt_T_RPL ->
+     v6rt_cmpr_i bs <> Panic /\ v6rt_cmpr_e bs <> Panic /\ v6rt_pad bs <> Panic /\ v6rt_addresses bs <> Panic)).
+
+Check (C07_v6rt_parse_total : forall bs, v6rt_parse bs <> Panic).
